@@ -50,7 +50,7 @@ int main(void)
       printf("Definition c_sentinel_tls11 : list N := ["); for (int i = 0; i < 8; i++) printf("%s%u", i ? "; " : "", b[i]); printf("].\n"); }
     /* alerts, suites, extension ids */
     N(SSL_ALERT_HANDSHAKE_FAILURE) N(SSL_ALERT_ILLEGAL_PARAMETER) N(SSL_ALERT_DECODE_ERROR) N(SSL_ALERT_PROTOCOL_VERSION)
-    N(SSL_ALERT_INAPPROPRIATE_FALLBACK) N(SSL_ALERT_UNSUPPORTED_EXTENSION) N(SSL_ALERT_UNEXPECTED_MESSAGE) N(SSL_ALERT_NONE)
+    N(SSL_ALERT_INAPPROPRIATE_FALLBACK) N(SSL_ALERT_UNSUPPORTED_EXTENSION) N(SSL_ALERT_UNEXPECTED_MESSAGE) N(SSL_ALERT_INTERNAL_ERROR) N(SSL_ALERT_NONE)
     N(TLS_FALLBACK_SCSV) N(TLS_EMPTY_RENEGOTIATION_INFO_SCSV) N(SSL_NULL_WITH_NULL_NULL)
     N(CS_NULL) N(CS_RSA) N(CS_DHE_RSA) N(CS_DH_ANON) N(CS_DHE_PSK) N(CS_PSK) N(CS_ECDHE_ECDSA) N(CS_ECDHE_RSA) N(CS_ECDH_ECDSA) N(CS_ECDH_RSA) N(CS_TLS13)
     N(CRYPTO_FLAGS_SHA1) N(CRYPTO_FLAGS_SHA2) N(CRYPTO_FLAGS_SHA3) N(CRYPTO_FLAGS_MD5) N(CRYPTO_FLAGS_3DES) N(CRYPTO_FLAGS_GCM) N(CRYPTO_FLAGS_CHACHA)
